@@ -37,6 +37,11 @@ func genRenderData(r *vk.RNG, maxContainers int) []renderStream {
 	nc := r.Range(0, maxContainers)
 	var streams []renderStream
 	base := int64(1700000000) * 1e9
+	if r.Chance(1, 8) {
+		// entries around the Unix epoch: a timestamp before 1970 is a negative nanosecond count, which the
+		// result carries as T >= 2^63; it is printed as the date it is and has its place in the order
+		base = -int64(r.Range(1, 6)) * 1e9
+	}
 	for ci := 0; ci < nc; ci++ {
 		name := fmt.Sprintf("ctr-%d", ci)
 		if ci == 3 && r.Bool() {
